@@ -21,6 +21,15 @@ Theorem c11_every_standard_message_kind_is_bridged : forall v,
   In v cosmos_variants -> v <> "Custom" -> arm_of v = Some "keep".
 Proof. exact arm_keep. Qed.
 
+(* ... under EVERY choice of cargo features (any selection `sel` of the features of sylvia/Cargo.toml): the arm of a
+   message kind is compiled in exactly when cosmwasm-std defines the kind, so no non-custom kind that exists can reach
+   the `Unknown message variant` error and the match never names a missing variant. Feature tables and the variant list
+   are regenerated from sylvia/Cargo.toml, sylvia/src/into_response.rs and the pinned cosmwasm-std source. *)
+Theorem c11_arm_present_iff_kind_exists_under_every_feature_set : forall (sel : string -> bool) v,
+  In v cosmos_variants ->
+  arm_present (filter sel feature_names) v = variant_present (filter sel feature_names) v.
+Proof. exact arm_present_iff_variant_present. Qed.
+
 Check c11_fails_iff_custom_message : forall r, wf_response r -> ((exists e, into_response r = inl e) <-> has_custom r).
 
 Definition ex_sub (v : string) (id : Z) : submsg :=
@@ -39,4 +48,12 @@ Proof. split; repeat constructor; simpl; tauto. Qed.
 
 Print Assumptions c11_response_preserved.
 Print Assumptions c11_fails_iff_custom_message.
+Example c11_example_features :
+  variant_present ["staking"] "Distribution" = true /\ arm_present ["staking"] "Distribution" = true /\
+  variant_present ["staking"] "Gov" = false /\ arm_present ["staking"] "Gov" = false /\
+  variant_present ["cosmwasm_2_0"] "Any" = true /\ memb "cosmwasm_1_1" (enabled ["cosmwasm_2_0"]) = true /\
+  length (sublists feature_names) > 1000.
+Proof. vm_compute. repeat split; try reflexivity. repeat constructor. Qed.
+
 Print Assumptions c11_every_standard_message_kind_is_bridged.
+Print Assumptions c11_arm_present_iff_kind_exists_under_every_feature_set.
